@@ -144,6 +144,8 @@ def s_include(F, res):
     for bi, si, st in mir.stmts(b):
         if any(q[0] == "f" and q[2] == SS and q[1] in meet for q in st["lhs"]["p"]):
             sites.append((bi, st))
+    if not meet:
+        return   # F-CANDIDATES reports that no field holds the intersection any more
     if not sites:
         raise BrokenCheck("narrow_search_space (helpers inlined) never writes the intersection of the constraints")
     for fld in ("address", "min_amount", "refs"):
